@@ -1034,3 +1034,30 @@ type chanMutex struct {
 func (m *chanMutex) init()   { m.once.Do(func() { m.ch = make(chan struct{}, 1) }) }
 func (m *chanMutex) Lock()   { m.init(); m.ch <- struct{}{} }
 func (m *chanMutex) Unlock() { <-m.ch }
+
+// BreakLogDir makes the directory of a node's message log unusable for anything new, the way a volume that went away
+// does: the directory is moved aside and a plain file takes its name. Segments that are open stay writable through
+// their descriptors; creating the next segment fails inside the commit log with a real I/O error.
+func (w *World) BreakLogDir(node int) error {
+	dir := filepath.Join(w.Node(node).Dir, "log")
+	if err := os.Rename(dir, dir+".gone"); err != nil {
+		return err
+	}
+	return os.WriteFile(dir, []byte("not a directory"), 0o600)
+}
+
+// LogHolds reads a node's real log back (every offset from 0 until the log has no more) and reports whether an entry
+// with that payload is stored.
+func (w *World) LogHolds(node int, payload string) (bool, error) {
+	inner := w.Node(node).Log.inner
+	for off := uint64(0); off < 100000; off++ {
+		p, err := inner.Get(off)
+		if err != nil {
+			return false, nil // end of the log
+		}
+		if string(p.Payload) == payload {
+			return true, nil
+		}
+	}
+	return false, fmt.Errorf("log does not end")
+}
